@@ -119,7 +119,9 @@ def ref_collect(layers, name, pred):
 
 
 def main():
-    n_forests = int(sys.argv[1]) if len(sys.argv) > 1 else 1500
+    import os
+    n_forests = int(sys.argv[1]) if len(sys.argv) > 1 else (
+        20000 if os.environ.get('VERIF_TIER') == 'thorough' else 1500)
     rnd = random.Random(20260917)
     fds = {}
     for nm in FUNCS:
